@@ -16,6 +16,10 @@ def belongs(m):
 
 
 def run(ctx):
+    # specification level: the three emission passes of `impl Serialize for toml::Value` (SerImpl) partition the
+    # entries of every table, keep the map order inside a pass, and put everything that needs a header last
+    r = ctx.tlc("MCSerImpl", "SPECIFICATION Spec\nCONSTANT MaxLen = %d\n" % (5 if ctx.quick else 7), tag="serimpl", workers=2, timeout=3600)
+    ctx.extra["SerImpl_emission_passes_partition"] = {"kind_sequences_up_to_length": 5 if ctx.quick else 7}
     serdecheck.run_serde(ctx, belongs, builds=(("preserve_order",), ()))
     return ctx.finish("model_checking", RULE)
 
